@@ -155,7 +155,7 @@ func (r Req) URL() (method, path string) {
 var selectors = []string{`{app="x"}`, `{app="x", env=~"p.*"}`, `{app!="y", series=~"s[0-9]+"}`, `{job="a b", x!~"q"}`}
 var lineFilters = []string{``, ` |= "line"`, ` != "zzz"`, ` |~ "s[0-9] i"`, ` !~ "nomatch"`, ` |= "a\\.b" |~ "a\\.b"`}
 var stages = []string{``, ` | json`, ` | logfmt`, ` | json a="b.c", lvl="level"`, ` | line_format "{{.app}} {{.series}}"`, ` | label_format app2=app`, ` | app="x"`, ` | v > 5`, ` | drop app`,
-	` | json | level="info"`, ` | logfmt | line_format "{{.msg}}"`, ` | regexp "(?P<first>\\w+)"`, ` | json | unwrap v`, ` | logfmt | v >= 2.5 and level!="x"`, ` | json | drop level | line_format "{{.v}}"`}
+	` | json | level="info"`, ` | logfmt | line_format "{{.msg}}"`, ` | regexp "(?P<first>\\w+)"`, ` | json | unwrap v`, ` | logfmt | v >= 2.5 and level!="x"`, ` | json lvl="level" | lvl="error"`, ` | regexp "(?P<lvl>\\w+)" | lvl="info"`, ` | json lvl="level", n="v" | n > 2 | lvl!="x"`, ` | json | drop level | line_format "{{.v}}"`}
 var rangeFns = []string{"rate", "count_over_time", "bytes_rate", "bytes_over_time", "absent_over_time"}
 var unwrapFns = []string{"sum_over_time", "avg_over_time", "min_over_time", "max_over_time", "first_over_time", "last_over_time", "rate"}
 var aggs = []string{"sum", "avg", "min", "max", "count"}
@@ -223,6 +223,7 @@ func genResult(rt *rapid.T, l string, faulty bool) sqlfake.Result {
 		BaseNs:      946684800000000000 + int64(rapid.IntRange(-120, 120).Draw(rt, l+".base"))*1e9,
 		StepNs:      rapid.SampledFrom([]int64{1, 1000000, 1e9, 15e9}).Draw(rt, l+".stepns"),
 		Desc:        rapid.Bool().Draw(rt, l+".desc"),
+		CtrlBytes:   rapid.IntRange(0, 2).Draw(rt, l+".ctrl") == 0,
 	}
 	switch rapid.IntRange(0, 4).Draw(rt, l+".lines") {
 	case 0:
